@@ -5,6 +5,8 @@ cd "$(dirname "$0")/.."
 if [ -n "$(git -C /repo status --porcelain)" ]; then echo "/repo working tree is not clean"; exit 2; fi
 for d in "$(pwd)"/seeded/C*/; do
   name=$(basename $d); id=$(echo $name | cut -c1-3 | tr 'A-Z' 'a-z')
+  # a change delivered for one property that breaks another one names the check that decides it (meta.json "check")
+  other=$(python3 -c "import json;print(json.load(open('$d/meta.json')).get('check',''))" | tr 'A-Z' 'a-z'); [ -n "$other" ] && id=$other
   if ! git -C /repo apply --check $d/patch.diff 2>/dev/null; then echo "$name DOES-NOT-APPLY"; continue; fi
   git -C /repo apply $d/patch.diff
   ID=$(echo $id | tr 'a-z' 'A-Z')
